@@ -1,6 +1,6 @@
 (* C11 — complex-valued fields reproduce real-valued runs.  Model: model/Yee.v; lemmas: proofs/Yee_real.v, proofs/Yee_real_pml.v *)
 From Coq Require Import List Arith.
-From FV Require Import base.Scalar base.Cplx model.Yee proofs.Yee_steps proofs.Yee_real proofs.Yee_real_pml model.YeeFull proofs.Yee_full_props proofs.Yee_lossy_props.
+From FV Require Import base.Scalar base.Cplx model.Yee proofs.Yee_steps proofs.Yee_real proofs.Yee_real_pml model.YeeFull proofs.Yee_full_props proofs.Yee_lossy_props model.YeeExec proofs.Yee_lossy_exec.
 Import ListNotations.
 
 (* For every scene of the pair model (any grid, widths, masks, iso/diagonal lossy materials, ANY list of CPML layers) whose ghost
@@ -33,3 +33,16 @@ Theorem C11_lossy_tensor_complex_stays_real : forall (K : Fld) (sc : scene K), p
   realV K (fE (iterLR K sc e m n s)) /\ realV K (fH (iterLR K sc e m n s)).
 Proof. intros K sc Hp G I e m. exact (forward_lossy_real_n K sc Hp G I e m). Qed.
 Print Assumptions C11_lossy_tensor_complex_stays_real.
+
+(* what the correspondence executes for that tier (matrices and state tabulated) reads back, in every cell of the box, the functional step *)
+Theorem C11_lossy_executed_step_is_the_model : forall (K : Fld) (sc : scene K), pmls K sc = [] ->
+  forall (e m : option (T9 K * T9 K)) s i j k, (i < nx K sc)%nat -> (j < ny K sc)%nat -> (k < nz K sc)%nat ->
+  vx (fE (forward_lossyX K sc e m s)) i j k = vx (fE (forward_lossy K sc e m s)) i j k /\
+  vy (fE (forward_lossyX K sc e m s)) i j k = vy (fE (forward_lossy K sc e m s)) i j k /\
+  vz (fE (forward_lossyX K sc e m s)) i j k = vz (fE (forward_lossy K sc e m s)) i j k /\
+  vx (fH (forward_lossyX K sc e m s)) i j k = vx (fH (forward_lossy K sc e m s)) i j k /\
+  vy (fH (forward_lossyX K sc e m s)) i j k = vy (fH (forward_lossy K sc e m s)) i j k /\
+  vz (fH (forward_lossyX K sc e m s)) i j k = vz (fH (forward_lossy K sc e m s)) i j k /\
+  tstep (forward_lossyX K sc e m s) = tstep (forward_lossy K sc e m s).
+Proof. exact forward_lossyX_in_box. Qed.
+Print Assumptions C11_lossy_executed_step_is_the_model.
